@@ -486,3 +486,187 @@ Proof.
   intros Hp Hf. unfold go_vmm_Map. cbn [f_world_mem]. rewrite Hp, N.eqb_refl.
   apply N.eqb_neq in Hf. rewrite Hf. reflexivity.
 Qed.
+
+(** ---- Unmap with the exact sequence of seam calls: one flushTLBEntryFn of the page, exactly when it succeeds ---- *)
+Theorem unmap_is_translation_calls page s tr0 :
+  P.mem_w64 s ->
+  go_vmm_Unmap (W tr0 s) page P.o_flush =
+  match unmap_page page s with
+  | Stray => GPanic
+  | Ok (s', e) => GOk (W (if e =? 0 then P.ev_flush (frame_addr page) :: tr0 else tr0) s', P.err_of e)
+  end.
+Proof.
+  intros Hw. unfold go_vmm_Unmap, unmap_page.
+  rewrite page_addr_any. set (va := frame_addr page) in *.
+  cbv zeta.
+  match goal with |- context [gvisit ?f _ _] => set (clo := f) end.
+  unfold walk_items.
+  assert (HI : forall lv level ta s,
+             lv <> [] -> level + N.of_nat (length lv) = 4 -> P.mem_w64 s ->
+             match gvisit clo (walk_items_from lv level ta va) (W tr0 s, None) with
+             | GOk st => let '(v_world, v_err) := st in GOk (v_world, v_err)
+             | GPanic => GPanic | GFuel => GFuel end =
+             match unmap_walk lv level ta va s with
+             | Stray => GPanic
+             | Ok (s', e) => GOk (W (if e =? 0 then P.ev_flush va :: tr0 else tr0) s', P.err_of e)
+             end).
+  2:{ apply HI; [rewrite go_levels_val; discriminate | reflexivity | exact Hw]. }
+  clear Hw s.
+  induction lv as [|[sh bits] rest IH]; intros level ta s Hne Hlen Hw; [congruence|].
+  cbn [walk_items_from gvisit unmap_walk].
+  set (ea := entry_addr ta va sh bits) in *.
+  unfold clo at 1. cbv beta iota.
+  change (gsub 8 vmm_pageLevels 1) with last_level.
+  unfold go_vmm_world_store_virt, go_vmm_world_load_virt, vstore, vload. wsimp.
+  destruct (resolve s ea) as [[f i]|] eqn:Er.
+  2:{ destruct (level =? last_level); reflexivity. }
+  assert (HH : vmm_FlagHugePage < two64) by reflexivity.
+  assert (HP : vmm_FlagPresent < two64) by reflexivity.
+  destruct (level =? last_level) eqn:El.
+  - rewrite (clear_flags_any _ _ (Hw f i) HP). wsimp.
+    unfold go_vmm_world_seam. wsimp. cbn [P.o_flush].
+    assert (Hr : rest = []).
+    { apply N.eqb_eq in El. destruct rest; [reflexivity|]. cbn [length] in Hlen. unfold last_level in El.
+      change (vmm_pageLevels - 1) with 3 in El. lia. }
+    subst rest. cbn [walk_items_from gvisit]. reflexivity.
+  - rewrite !(has_flags_any _ _ (Hw f i) HH), !(has_flags_any _ _ (Hw f i) HP).
+    destruct (negb (has_flags (rd (mem s) f i) vmm_FlagPresent)). { reflexivity. }
+    destruct (has_flags (rd (mem s) f i) vmm_FlagHugePage). { reflexivity. }
+    apply IH; [|cbn [length] in Hlen; lia | exact Hw].
+    apply N.eqb_neq in El. unfold last_level in El. change (vmm_pageLevels - 1) with 3 in El.
+    cbn [length] in Hlen. destruct rest; [cbn [length] in Hlen; lia | discriminate].
+Qed.
+
+(** ---- Map with the exact sequence of seam calls ----
+    [map_walk_tr] is [map_walk] (Vmm/Pt.v) with the seam calls written next to it: mm.AllocFrame, nextAddrFn and kernel.Memset
+    for every table it creates, flushTLBEntryFn at the leaf; [map_page_tr_model]: forgetting them gives [map_page]. *)
+Definition ev_malloc : gcall := GCall "mm.AllocFrame" [].
+Definition ev_next (a : N) : gcall := GCall "nextAddrFn" [GNum a].
+
+Fixpoint map_walk_tr (lv : list (N * N)) (level tableAddr va frame flags : N) (s : st) (tr : list gcall) : option (st * N * list gcall) :=
+  match lv with
+  | [] => Some (s, E_OK, tr)
+  | (sh, bits) :: rest =>
+      let ea := entry_addr tableAddr va sh bits in
+      match resolve s ea with
+      | None => None
+      | Some (f, i) =>
+          if level =? last_level then
+            Some (flush (wr_st s f i (set_flags (set_frame 0 frame) flags)) va, E_OK, P.ev_flush va :: tr)
+          else
+            let e := rd (mem s) f i in
+            if has_flags e vmm_FlagHugePage then Some (s, E_HUGE, tr)
+            else if negb (has_flags e vmm_FlagPresent) then
+              match alloc s with
+              | (s1, None) => Some (s1, E_ALLOC, ev_malloc :: tr)
+              | (s1, Some nf) =>
+                  let s2 := wr_st s1 f i (set_flags (set_frame 0 nf) P_RW) in
+                  let next := shl64 ea (level_bits (level + 1)) in
+                  match resolve_page s2 next with
+                  | None => None
+                  | Some pf => map_walk_tr rest (level + 1) (shl64 ea bits) va frame flags (set_mem s2 (zero (mem s2) pf))
+                                           (P.ev_memset next :: ev_next next :: ev_malloc :: tr)
+                  end
+              end
+            else map_walk_tr rest (level + 1) (shl64 ea bits) va frame flags s tr
+      end
+  end.
+
+Definition map_page_tr (page frame flags : N) (s : st) (tr : list gcall) : option (st * N * list gcall) :=
+  if prot s && (frame =? zf s) && negb (N.land flags vmm_FlagRW =? 0) then Some (s, E_ZERO_RW, tr)
+  else map_walk_tr go_levels 0 vmm_pdtVirtualAddr (frame_addr page) frame flags s tr.
+
+Definition tr_forget (r : option (st * N * list gcall)) : R (st * N) :=
+  match r with None => Stray | Some (s, e, _) => Ok (s, e) end.
+Definition tr_res (r : option (st * N * list gcall)) : gres (go_vmm_world * option string) :=
+  match r with None => GPanic | Some (s, e, tr) => GOk (W tr s, P.err_of e) end.
+
+Lemma map_walk_tr_model lv : forall level ta va frame flags s tr,
+  tr_forget (map_walk_tr lv level ta va frame flags s tr) = map_walk lv level ta va frame flags s.
+Proof.
+  induction lv as [|[sh bits] rest IH]; intros level ta va frame flags s tr; cbn [map_walk_tr map_walk]; [reflexivity|].
+  destruct (resolve s _) as [[f i]|]; [|reflexivity].
+  destruct (level =? last_level); [reflexivity|].
+  destruct (has_flags _ vmm_FlagHugePage); [reflexivity|].
+  destruct (negb _); [|apply IH].
+  destruct (alloc s) as [s1 [nf|]]; [|reflexivity]. cbv zeta.
+  destruct (resolve_page _ _) as [pf|]; [apply IH | reflexivity].
+Qed.
+
+Lemma map_page_tr_model page frame flags s tr : tr_forget (map_page_tr page frame flags s tr) = map_page page frame flags s.
+Proof. unfold map_page_tr, map_page. destruct (_ && _ && _); [reflexivity | apply map_walk_tr_model]. Qed.
+
+Theorem map_is_translation_calls page frame flags s tr0 :
+  flags < two64 -> P.mem_w64 s ->
+  map_stable go_levels 0 vmm_pdtVirtualAddr (frame_addr page) s ->
+  go_vmm_Map (W tr0 s) page frame flags P.o_flush P.o_memset o_alloc o_id = tr_res (map_page_tr page frame flags s tr0).
+Proof.
+  intros Hfl Hw Hst. unfold go_vmm_Map, map_page_tr. wsimp.
+  destruct (prot s && (frame =? zf s) && negb (N.land flags vmm_FlagRW =? 0)); [reflexivity|].
+  rewrite page_addr_any. set (va := frame_addr page) in *.
+  cbv zeta.
+  match goal with |- context [gvisit ?f _ _] => set (clo := f) end.
+  unfold walk_items.
+  assert (HI : forall lv level ta s tr,
+             level + N.of_nat (length lv) = 4 -> P.mem_w64 s -> map_stable lv level ta va s ->
+             match gvisit clo (walk_items_from lv level ta va) (W tr s, None) with
+             | GOk st => let '(v_world, v_err) := st in GOk (v_world, v_err)
+             | GPanic => GPanic | GFuel => GFuel end = tr_res (map_walk_tr lv level ta va frame flags s tr)).
+  2:{ apply HI; [reflexivity | exact Hw | exact Hst]. }
+  clear Hw Hst s tr0.
+  induction lv as [|[sh bits] rest IH]; intros level ta s tr Hlen Hw Hst.
+  { reflexivity. }
+  cbn [walk_items_from gvisit map_walk_tr]. cbn [map_stable] in Hst.
+  set (ea := entry_addr ta va sh bits) in *.
+  unfold clo at 1. cbv beta iota.
+  change (gsub 8 vmm_pageLevels 1) with last_level. change (gw 64 0) with 0.
+  unfold go_vmm_world_store_virt, go_vmm_world_load_virt, vstore, vload. wsimp.
+  destruct (resolve s ea) as [[f i]|] eqn:Er.
+  2:{ destruct (level =? last_level); reflexivity. }
+  destruct (level =? last_level) eqn:El.
+  - (* the leaf *)
+    wsimp. rewrite (Hst 0). wsimp.
+    rewrite rd_wr_st.
+    rewrite (set_frame_any _ frame P.zero_lt). rewrite P.wr_st_wr_st, (Hst _). wsimp.
+    rewrite rd_wr_st, (set_flags_any _ flags (P.set_frame_lt 0 frame P.zero_lt) Hfl), P.wr_st_wr_st.
+    unfold go_vmm_world_seam. wsimp. cbn [P.o_flush].
+    assert (Hr : rest = []).
+    { apply N.eqb_eq in El. destruct rest; [reflexivity|]. cbn [length] in Hlen. unfold last_level in El.
+      change (vmm_pageLevels - 1) with 3 in El. lia. }
+    subst rest. cbn [walk_items_from gvisit]. reflexivity.
+  - (* an upper level *)
+    assert (Hl3 : level = 0 \/ level = 1 \/ level = 2).
+    { apply N.eqb_neq in El. unfold last_level in El. change (vmm_pageLevels - 1) with 3 in El.
+      cbn [length] in Hlen. lia. }
+    assert (HH : vmm_FlagHugePage < two64) by reflexivity.
+    assert (HP : vmm_FlagPresent < two64) by reflexivity.
+    rewrite !(has_flags_any _ _ (Hw f i) HH), !(has_flags_any _ _ (Hw f i) HP).
+    set (e := rd (mem s) f i) in *.
+    destruct (has_flags e vmm_FlagHugePage). { reflexivity. }
+    destruct (negb (has_flags e vmm_FlagPresent)) eqn:Ep.
+    + unfold go_vmm_world_seam at 1. wsimp. unfold o_alloc.
+      destruct (alloc s) as [s1 [nf|]] eqn:Ea; [|reflexivity].
+      cbn [gerr_eqb negb]. wsimp.
+      destruct Hst as [Hes Hst'].
+      destruct (alloc_same _ _ _ Ea) as (Am & Ar & Arp).
+      rewrite (Ar ea), Er. wsimp.
+      rewrite (Hes 0). wsimp. rewrite rd_wr_st, (set_frame_any _ nf P.zero_lt), P.wr_st_wr_st, (Hes _). wsimp.
+      rewrite rd_wr_st. change (N.lor vmm_FlagPresent vmm_FlagRW) with P_RW.
+      rewrite (set_flags_any _ P_RW (P.set_frame_lt 0 nf P.zero_lt) P.P_RW_lt), P.wr_st_wr_st.
+      set (s2 := wr_st s1 f i (set_flags (set_frame 0 nf) P_RW)) in *.
+      assert (Eb : gidx vmm_pageLevelBits (gw 8 (level + 1)) = Some 9 /\ level_bits (level + 1) = 9).
+      { destruct Hl3 as [ -> | [ -> | -> ] ]; split; reflexivity. }
+      destruct Eb as [Eb1 Eb2]. rewrite Eb1. rewrite Eb2 in Hst'. rewrite Eb2. cbv iota beta.
+      rewrite shl64_trans.
+      unfold go_vmm_world_seam. wsimp. cbn [o_id P.o_memset]. wsimp.
+      change ((0 =? 0) && (mm_PageSize =? mm_PageSize)) with true. cbv iota.
+      destruct (resolve_page s2 (shl64 ea 9)) as [pf|] eqn:Erp; [|reflexivity].
+      wsimp.
+      apply IH.
+      * cbn [length] in Hlen. lia.
+      * apply P.keeps_zero. apply (P.keeps_wr s1 f i).
+        { apply P.set_flags_lt; [apply P.set_frame_lt; apply P.zero_lt | apply P.P_RW_lt]. }
+        apply (P.keeps_alloc _ _ _ Ea). exact Hw.
+      * exact Hst'.
+    + apply IH; [cbn [length] in Hlen; lia | exact Hw | exact Hst].
+Qed.
